@@ -14,6 +14,11 @@ def showPhrase (ws : List Word) : String := escape (joinWords ws)
 /-- the standard spelling (variant function constantly 0) -/
 def std : Var := fun _ => 0
 
+/-- variant function of a request seed: 0 = standard; `10^9 + k` = the UNIFORM variant (every choice point takes
+option `k`: the extremes of the variant space, e.g. "spaces everywhere"); anything else = pseudo-random per choice point -/
+def varOf (seed : Nat) : Var :=
+  if seed == 0 then std else if seed ≥ 1000000000 then (fun _ => seed - 1000000000) else varOfSeed seed
+
 /-- word normalisation used when comparing spellings in the pair rule: French plural `s`
 (`quatre-vingts`, `cents`) is an inflection the property lists among the accepted variants -/
 def normWord (code : String) (w : Word) : Word :=
@@ -45,13 +50,13 @@ def gen (fields : List String) : String :=
     match spellerByCode lc with
     | none => "no-lang"
     | some sp =>
-      let v : Var := if seed.toNat! == 0 then std else varOfSeed seed.toNat!
+      let v : Var := varOf seed.toNat!
       showPhrase (sp.cardinal v n.toNat!) ++ "|" ++ escape (decChars n.toNat!)
   | ["ord", lc, n, seed, infl] =>
     match spellerByCode lc with
     | none => "no-lang"
     | some sp =>
-      let v : Var := if seed.toNat! == 0 then std else varOfSeed seed.toNat!
+      let v : Var := varOf seed.toNat!
       match sp.ordinal v n.toNat! infl.toNat! with
       | none => "-"
       | some (ws, mk) => showPhrase ws ++ "|" ++ escape (decChars n.toNat! ++ mk)
@@ -59,7 +64,7 @@ def gen (fields : List String) : String :=
     match spellerByCode lc with
     | none => "no-lang"
     | some sp =>
-      let v : Var := if seed.toNat! == 0 then std else varOfSeed seed.toNat!
+      let v : Var := varOf seed.toNat!
       let d := parseDigits ds
       showPhrase (sp.cardinal v n.toNat! ++ [sp.sepWord] ++ sp.fraction v d) ++ "|" ++
         escape (decChars n.toNat! ++ [sp.decMark] ++ d.map digitChar)
@@ -67,14 +72,14 @@ def gen (fields : List String) : String :=
     match spellerByCode lc with
     | none => "no-lang"
     | some sp =>
-      let v : Var := if seed.toNat! == 0 then std else varOfSeed seed.toNat!
+      let v : Var := varOf seed.toNat!
       showPhrase (List.replicate k.toNat! sp.zeroWord ++ sp.cardinal v n.toNat!) ++ "|" ++
         escape (List.replicate k.toNat! '0' ++ decChars n.toNat!)
   | ["zeroafter", lc, n, seed] =>
     match spellerByCode lc with
     | none => "no-lang"
     | some sp =>
-      let v : Var := if seed.toNat! == 0 then std else varOfSeed seed.toNat!
+      let v : Var := varOf seed.toNat!
       showPhrase (sp.cardinal v n.toNat! ++ [sp.zeroWord]) ++ "|" ++ escape (decChars n.toNat! ++ [' ', '0'])
   | ["dict", lc, ds] =>
     match spellerByCode lc with
